@@ -201,6 +201,14 @@ def gen_block(rng, kinds=BLOCK_KINDS):
         elif kind == 'lotdiv':
             h = rng.choice(HALVES)
             txt = f"{h}/2 of Lot {rng.randint(1, 20)}"
+        elif kind == 'numlead':
+            # ordinary description text that begins with a number
+            n = rng.randint(1, 99)
+            txt = rng.choice([
+                f"{n} acres in the {render_chain_simple(rng, gen_chain(rng, 2))}",
+                f"{n}.{rng.randint(0, 99):02d} acres, more or less",
+                f"{n} foot strip along the fence",
+                f"{n} acres, being {render_lots(rng, gen_lot_items(rng, 2))}"])
         elif kind == 'all':
             txt = 'ALL'
         elif kind == 'prose':
